@@ -1,20 +1,35 @@
 #!/usr/bin/env python3
-"""For every stored seed: apply to /repo, run all quick checks, record which properties report it
-(meta.json detect_with), revert. Usage: seed_detect.py [name ...]"""
-import json, glob, os, subprocess, sys, re
+"""For every stored seed: apply it to a scratch worktree of /repo's HEAD (never to /repo itself),
+run all quick checks of a private copy of the checker binary against that tree with a private
+verif root (so /verif/evidence is not touched), record which properties report it
+(meta.json detect_with).  Usage: seed_detect.py [name ...]"""
+import json, glob, os, subprocess, sys, re, shutil, tempfile
 V='/verif'
 names=sys.argv[1:] or [os.path.basename(os.path.dirname(f)) for f in sorted(glob.glob(V+'/seeded/*/meta.json'))]
-assert subprocess.run(['git','-C','/repo','status','--porcelain'],capture_output=True,text=True).stdout.strip()=='', 'repo not clean'
-for n in names:
-    mf=f'{V}/seeded/{n}/meta.json'; m=json.load(open(mf))
-    r=subprocess.run(['git','-C','/repo','apply',f'{V}/seeded/{n}/patch.diff'],capture_output=True,text=True)
-    if r.returncode!=0:
-        print(n,'PATCH DOES NOT APPLY',r.stderr.strip()[:100]); continue
-    try:
-        out=subprocess.run([V+'/check.sh','all','quick'],capture_output=True,text=True,timeout=900).stdout
-    finally:
-        subprocess.run(['git','-C','/repo','checkout','--','.'])
-    props=sorted(set(re.findall(r'^VIOLATION property=(C\d+)',out,re.M)))
-    m['detect_with']=props
-    json.dump(m,open(mf,'w'),indent=1)
-    print(n,props,flush=True)
+env=dict(os.environ, PATH='/opt/veriftools/go1.26.8/bin:'+os.environ['PATH'], GOTOOLCHAIN='local', GOPROXY='off', GOFLAGS='-mod=mod')
+env.pop('GOWORK',None)
+subprocess.run([V+'/check.sh','C22','quick'],capture_output=True)  # makes sure the binary is built
+work=tempfile.mkdtemp(prefix='seed_detect_')
+binp=work+'/nokvsa'; shutil.copy(V+'/bin/nokvsa',binp)
+vroot=work+'/verif'; os.makedirs(vroot+'/evidence'); os.makedirs(vroot+'/out')
+for f in ['known_findings.json','properties.jsonl']:
+    shutil.copy(V+'/'+f,vroot+'/'+f)
+wt=work+'/wt'
+subprocess.run(['git','-C','/repo','worktree','add','-q','--detach',wt,'HEAD'],check=True)
+try:
+    for n in names:
+        mf=f'{V}/seeded/{n}/meta.json'; m=json.load(open(mf))
+        r=subprocess.run(['git','-C',wt,'apply',f'{V}/seeded/{n}/patch.diff'],capture_output=True,text=True)
+        if r.returncode!=0:
+            print(n,'PATCH DOES NOT APPLY',r.stderr.strip()[:100],flush=True); continue
+        try:
+            out=subprocess.run([binp,'check','all','--tier','quick','--repo',wt,'--verif',vroot],capture_output=True,text=True,timeout=1800,env=env).stdout
+        finally:
+            subprocess.run(['git','-C',wt,'checkout','--','.']); subprocess.run(['git','-C',wt,'clean','-fdq'])
+        props=sorted(set(re.findall(r'^VIOLATION property=(C\d+)',out,re.M)))
+        m['detect_with']=props
+        json.dump(m,open(mf,'w'),indent=1)
+        print(n,props,flush=True)
+finally:
+    subprocess.run(['git','-C','/repo','worktree','remove','--force',wt])
+    shutil.rmtree(work,ignore_errors=True)
